@@ -74,7 +74,7 @@ def _programs2():
     import itertools
     L2 = [["a"], ["b"], ["b", "a"], ["a", "b"]]
     out = []
-    for deps in ({"a": [], "b": []}, {"a": [], "b": ["a"]}, {"a": ["b"], "b": ["a"]}):
+    for deps in ({"a": [], "b": []}, {"a": [], "b": ["a"]}, {"a": ["b"], "b": ["a"]}, {"a": [], "b": ["b"]}):
         for ca, cb in itertools.product((True, False), repeat=2):
             for asy in ({"a": True, "b": True}, {"a": True, "b": False}, {"a": False, "b": True}):
                 for i, j in itertools.combinations_with_replacement(range(4), 2):
@@ -87,14 +87,14 @@ def _programs2():
 def _programs3():
     """MC_Resources!Programs3 (see _programs2)."""
     import itertools
-    L3 = [["a"], ["b"], ["c"], ["c", "a"]]
+    L3 = [["a"], ["b"], ["c"], ["c", "a"], ["a", "c"]]
     shapes = ({"a": [], "b": ["a"], "c": ["b"]}, {"a": [], "b": ["a"], "c": ["b", "a"]},
               {"a": ["c"], "b": ["a"], "c": ["b"]}, {"a": [], "b": ["c"], "c": ["b"]})
     out = []
     for deps in shapes:
         for cache in itertools.product((True, False), repeat=3):
             for asy in ({"a": True, "b": True, "c": True}, {"a": True, "b": False, "c": True}):
-                for i, j, k in itertools.combinations_with_replacement(range(4), 3):
+                for i, j, k in itertools.combinations_with_replacement(range(5), 3):
                     out.append({"deps": {n: list(v) for n, v in deps.items()}, "cache": dict(zip("abc", cache)),
                                 "asyncf": dict(asy), "params": {"p1": list(L3[i]), "p2": list(L3[j]), "p3": list(L3[k])}})
     out.sort(key=repr)
@@ -112,6 +112,12 @@ def _explore(progs, procs):
         for tr, an in drv.explore(prog, procs, same_run=True):
             traces.append((prog, tr, True))
             anomalies += an
+        if prog["params"][procs[0]] != prog["params"][procs[-1]]:
+            # the engine starts the steps of one event in name order: the other order too (the program space is reduced
+            # by the symmetry of the invocations, which a fixed start order breaks)
+            for tr, an in drv.explore(prog, procs, same_run="rev"):
+                traces.append((prog, tr, "rev"))
+                anomalies += an
     return traces, anomalies
 
 
